@@ -213,53 +213,135 @@ def known_sigs():
     return _SIGS
 
 
-def canonicalise(raw, fname):
-    """Present renamed / moved private functions and renamed parameters under the names the rules know.
+def _walk(n):
+    stack = [n]
+    while stack:
+        x = stack.pop()
+        if isinstance(x, dict):
+            yield x
+            stack.extend(x.values())
+        elif isinstance(x, list):
+            stack.extend(x)
 
-    A function of the frozen reference (refs/known_sigs.json, same crate / configuration / target) that no longer
-    exists is matched with a function that did not exist then when they have the same parameter and return types and
-    their callee sets overlap (Jaccard >= 0.5, unique best match); every occurrence of the new path in the facts is
-    then replaced by the old path.  Parameters of known functions get their frozen names back (by position).
+
+def item_fingerprint(body):
+    """what identifies a constant / static besides its name: its type and the literals / paths of its initialiser"""
+    lits = []
+    for x in _walk(body.get("hir")):
+        if x.get("k") == "Lit":
+            lits.append(repr(x.get("v"))[:40])
+        elif x.get("k") == "Path" and x.get("res") == "def":
+            lits.append(x.get("def") or "")
+    return {"ty": (body.get("hir") or {}).get("ty"), "lits": sorted(lits)[:80]}
+
+
+def canonicalise(raw, fname):
+    """Present renamed / moved private items under the names the rules know (refs/known_sigs.json holds, per crate /
+    configuration / target, what every named function, constant, static and struct looked like when the rules were
+    written).
+
+    * functions: one of the reference that no longer exists is matched with one that did not exist then when they
+      have the same parameter types (as a multiset: a free function may have become a method) and return type and
+      either their callee sets overlap (Jaccard >= 0.5 after applying the aliases found so far) or the signature is
+      unique on both sides; matching is repeated until nothing changes;
+    * constants / statics: same type and same initialiser literals;
+    * struct fields: a struct of the reference whose current definition has the same field types in the same order
+      under other names gets the reference's field names back;
+    * parameters of known functions get their reference names back (by position, or by type after a permutation).
+    Every occurrence of a new path / name in the facts is replaced by the old one.
     Returns (raw, {new: old}, [(fn, old_param, new_param)])."""
+    import re
     key = "%s|%s|%s" % (raw.get("crate"), raw.get("config"), fname)
-    ref = known_sigs().get(key)
-    if not ref or os.environ.get("VERIF_NO_CANON"):
+    ref_all = known_sigs().get(key)
+    if not ref_all or os.environ.get("VERIF_NO_CANON"):
         return raw, {}, []
-    cur = {}
+    ref = ref_all.get("fns", ref_all) if isinstance(ref_all, dict) and "fns" in ref_all else ref_all
+    ref_items = ref_all.get("items", {}) if "fns" in ref_all else {}
+    ref_adts = ref_all.get("adts", {}) if "fns" in ref_all else {}
+    cur, cur_items = {}, {}
     for b in raw["bodies"]:
         k = norm_path(b["def"])
-        if b.get("dk") in ("Fn", "AssocFn") and "{closure" not in k:
+        if "{closure" in k:
+            continue
+        if b.get("dk") in ("Fn", "AssocFn"):
             cur[k] = b
+        elif (b.get("dk") or "").startswith(("Const", "Static", "AssocConst")):
+            cur_items[k] = b
+    alias = {}
+    # ---- functions ----
     missing = [k for k in ref if k not in cur]
     new = [k for k in cur if k not in ref]
-    alias = {}
     if missing and new:
-
-        class _C:
-            pass
         sig_new = {k: signature(None, k, cur[k]) for k in new}
-        for m in missing:
-            best = []
-            for k, s in sig_new.items():
-                if k in alias:
+
+        def tysig(s):
+            return (tuple(sorted(x or "" for x in s["ptys"])), s["ret"])
+        for _round in range(4):
+            changed = False
+            inv = {v: k for k, v in alias.items()}
+
+            def canon_callees(cs):
+                return {inv_new.get(c, c) for c in cs}
+            inv_new = dict(alias)      # new name -> old name
+            for m in missing:
+                if m in alias.values():
                     continue
-                if s["ptys"] != ref[m]["ptys"] or s["ret"] != ref[m]["ret"]:
-                    # moving a free function into an impl changes `T` to `Self`-spellings only in the name, not in the types
+                cands = [k for k in new if k not in alias and tysig(sig_new[k]) == tysig(ref[m])]
+                if not cands:
                     continue
-                a, b_ = set(s["callees"]), set(ref[m]["callees"])
-                j = len(a & b_) / float(len(a | b_)) if (a | b_) else 1.0
-                same_leaf = k.split("::")[-1] == m.split("::")[-1]
-                if j >= 0.5 or (same_leaf and j >= 0.3):
-                    best.append((j + (0.25 if same_leaf else 0), k))
-            best.sort(reverse=True)
-            if best and (len(best) == 1 or best[0][0] - best[1][0] >= 0.15):
-                alias[best[0][1]] = m
+                others_missing = [m2 for m2 in missing if m2 not in alias.values() and m2 != m and tysig(ref[m2]) == tysig(ref[m])]
+                scored = []
+                for k in cands:
+                    a = {inv_new.get(c, c) for c in sig_new[k]["callees"]}
+                    b_ = set(ref[m]["callees"])
+                    jac = len(a & b_) / float(len(a | b_)) if (a | b_) else 1.0
+                    same_leaf = k.split("::")[-1] == m.split("::")[-1]
+                    scored.append((jac + (0.25 if same_leaf else 0), jac, k))
+                scored.sort(reverse=True)
+                top = scored[0]
+                unique_sig = len(cands) == 1 and not others_missing
+                clear = len(scored) == 1 or top[0] - scored[1][0] >= 0.15
+                if (top[1] >= 0.5 and clear) or (unique_sig and (top[1] >= 0.2 or not ref[m]["callees"])) or (top[0] >= 0.55 and clear):
+                    alias[top[2]] = m
+                    changed = True
+            if not changed:
+                break
+    # ---- constants / statics ----
+    miss_i = [k for k in ref_items if k not in cur_items]
+    new_i = [k for k in cur_items if k not in ref_items]
+    for m in miss_i:
+        cands = [k for k in new_i if k not in alias and item_fingerprint(cur_items[k]) == ref_items[m]]
+        if len(cands) == 1:
+            alias[cands[0]] = m
     if alias:
-        import re
         txt = json.dumps(raw)
         for newp, oldp in sorted(alias.items(), key=lambda kv: -len(kv[0])):
-            txt = re.sub(r'(?<![\w:])' + re.escape(newp) + r'(?![\w])', oldp.replace("\\", "\\\\"), txt)
+            txt = re.sub(r'(?<![\w:])' + re.escape(newp) + r'(?![\w])', lambda m_, o=oldp: o, txt)
         raw = json.loads(txt)
+    # ---- struct fields ----
+    for a in raw.get("adts", []):
+        k = norm_path(a["def"])
+        r = ref_adts.get(k)
+        if not r or a.get("kind") != "Struct" or not a.get("variants"):
+            continue
+        fs = a["variants"][0].get("fields") or []
+        if len(fs) != len(r) or [f.get("ty") for f in fs] != [x[1] for x in r]:
+            continue
+        ren = {f["name"]: x[0] for f, x in zip(fs, r) if f.get("name") != x[0]}
+        if not ren or len(set(ren.values())) != len(ren):
+            continue
+        for f in fs:
+            f["name"] = ren.get(f["name"], f["name"])
+        for b in raw["bodies"]:
+            for x in _walk(b.get("hir")):
+                kk = x.get("k")
+                if kk == "Field" and norm_path(x.get("adt") or "") == k and x.get("name") in ren:
+                    x["name"] = ren[x["name"]]
+                elif kk == "Struct" and (norm_path(x.get("adt") or "") == k or norm_path(x.get("def") or "") == k) and isinstance(x.get("fields"), list):
+                    for f in x["fields"]:
+                        if isinstance(f, dict) and f.get("name") in ren:
+                            f["name"] = ren[f["name"]]
+    # ---- parameter names ----
     renamed = []
     for b in raw["bodies"]:
         k = norm_path(b["def"])
@@ -269,23 +351,31 @@ def canonicalise(raw, fname):
         ps = b.get("params") or []
         if len(ps) != len(r["pnames"]):
             continue
+        order = list(range(len(ps)))
+        if [p.get("ty") for p in ps] != r["ptys"]:
+            # the parameters were permuted (free function <-> method): pair them by type when that is unambiguous
+            order = []
+            used = set()
+            for p in ps:
+                idx = [i_ for i_, ty in enumerate(r["ptys"]) if ty == p.get("ty") and i_ not in used]
+                if len(idx) != 1:
+                    order = None
+                    break
+                used.add(idx[0])
+                order.append(idx[0])
+            if order is None:
+                continue
         ren = {}
-        for p, old in zip(ps, r["pnames"]):
+        for p, oi in zip(ps, order):
+            old = r["pnames"][oi]
             if p.get("k") == "Binding" and old and p.get("name") != old:
                 ren[p["hid"]] = (p["name"], old)
                 renamed.append((k, old, p["name"]))
                 p["name"] = old
         if ren:
-            # the parameter's uses carry its name too
-            stack = [b.get("hir")]
-            while stack:
-                x = stack.pop()
-                if isinstance(x, dict):
-                    if x.get("k") == "Path" and x.get("res") == "local" and x.get("hid") in ren and x.get("name") == ren[x["hid"]][0]:
-                        x["name"] = ren[x["hid"]][1]
-                    stack.extend(x.values())
-                elif isinstance(x, list):
-                    stack.extend(x)
+            for x in _walk(b.get("hir")):
+                if x.get("k") == "Path" and x.get("res") == "local" and x.get("hid") in ren and x.get("name") == ren[x["hid"]][0]:
+                    x["name"] = ren[x["hid"]][1]
     return raw, alias, renamed
 
 
